@@ -4,9 +4,10 @@
 # demonstration fails with it and passes without it), stores it under /verif/seeded/<seed-name>/, then applies it
 # to /repo, runs the listed checks (default: the property's own) and restores /repo.
 set -u
-ID=$1; NAME=$2; shift 2
+WT=$1; NAME=$2; shift 2
+ID=${WT: -3}   # worktree names are Cxx or R<n>Cxx
 CHECKS=${@:-$ID}
-W=/tmp/mut/$ID; O=/tmp/mut/$ID-out; D=/verif/seeded/$NAME
+W=/tmp/mut/$WT; O=/tmp/mut/$WT-out; D=/verif/seeded/$NAME
 export GOFLAGS=-mod=mod GOPROXY=off
 cd $W || exit 2
 DEMO=$(ls zz_demo*_test.go 2>/dev/null | head -1)
